@@ -403,6 +403,12 @@ def run(ctx):
                               "subvariant_pair": True})
     probe(ctx, eval_images, cases, "images")
     ctx.evaluate(eval_images, cases, label="images-upgrade", chunk=100, key=lambda c: core._digest([c["obj"], c["ver"], c["rot"], c.get("subvariant_pair")]))
+    # images 1.0/1.1 documents enumerated by ImagesManifest.tla itself (src cells next to binary arches, several variants)
+    from . import c09, images_adapter
+    old_images = [c for c in c09.gen_cases(ctx, "loads", 1, maxdoc=2) if c["hist"] and c["hist"][0]["ver"] in (100, 101)]
+    for c in old_images:
+        c["focus"] = "C05"
+    ctx.evaluate(images_adapter.replay_history, old_images, label="history", chunk=200, key=lambda c: core._digest([c["hist"], c["k"], c["s"]]))
     # rpms
     cases = []
     for i, c in enumerate(c12.rpms_cases(ctx, "C03")):
@@ -444,5 +450,8 @@ def replay(info):
     k = info["kind"]
     if k == "rpms-history":
         return rpms_adapter.replay(info["case"])
+    if k == "history":
+        from . import images_adapter
+        return images_adapter.replay_history(info["case"])
     return {"composeinfo-upgrade": eval_composeinfo, "images-upgrade": eval_images, "rpms-upgrade": eval_rpms,
             "treeinfo-upgrade": eval_treeinfo, "fixture": eval_fixture}[k](info["case"])
